@@ -70,6 +70,17 @@ def gen_cases(rng, tier, drift):
                 ops.append(["reset"])
         ops += [["next"]] * rng.randint(2, 12)
         cases.append(dict(lens=lens, crit=crit, weights=weights, seed=rng.randint(0, 1000), rank=rng.randrange(ws), ws=ws, ops=ops))
+    # isolation: what sampler X yields for a given (seed, rank, world_size, epoch, weights) must not depend on what another sampler Y
+    # does in between X's own steps (a nested sampler, a sampler driven by another thread): Y's reset()/next() are run INSIDE
+    # X's calls into the random-number library, at a chosen call
+    for _ in range(n // 10):
+        def one():
+            ns = rng.randint(1, 3)
+            ws = rng.choice([1, 2])
+            return dict(lens=[rng.randint(2, 6) for _ in range(ns)], weights=[round(rng.uniform(0.2, 3.0), 3) for _ in range(ns)],
+                        seed=rng.randint(0, 1000), rank=rng.randrange(ws), ws=ws, crit=rng.choice(CRITS[:3]))
+        x, y = one(), one()
+        cases.append(dict(kind="iso", x=x, y=y, at=rng.randint(0, 5), epochs=rng.choice([1, 2, 3]), lens=x["lens"], crit=x["crit"], ops=[]))
     return cases
 
 
@@ -101,9 +112,69 @@ def items_of(c, i):
     return list(range(100 * i, 100 * i + c["lens"][i]))
 
 
+def run_iso(c):
+    import torch
+    from torchdata.nodes import IterableWrapper, MultiNodeWeightedSampler
+
+    def mk(d):
+        names = [f"d{i}" for i in range(len(d["lens"]))]
+        return MultiNodeWeightedSampler({n: IterableWrapper(list(range(100 * i, 100 * i + d["lens"][i]))) for i, n in enumerate(names)},
+                                        dict(zip(names, d["weights"])), stop_criteria=d["crit"], rank=d["rank"], world_size=d["ws"], seed=d["seed"])
+
+    def run_x(hook_at):
+        calls = [0]
+        busy = [False]
+        real = {"randint": torch.randint, "multinomial": torch.multinomial}
+        ynode = mk(c["y"])
+
+        def wrap(name):
+            def f(*a, **k):
+                if hook_at is not None and not busy[0]:
+                    if calls[0] == hook_at:
+                        busy[0] = True
+                        try:
+                            ynode.reset()
+                            for _ in range(3):
+                                try:
+                                    next(ynode)
+                                except StopIteration:
+                                    break
+                        finally:
+                            busy[0] = False
+                    calls[0] += 1
+                return real[name](*a, **k)
+            return f
+        torch.randint, torch.multinomial = wrap("randint"), wrap("multinomial")
+        try:
+            node = mk(c["x"])
+            out = []
+            for _ in range(c["epochs"]):
+                node.reset()
+                ep = []
+                for _ in range(40):
+                    try:
+                        ep.append(next(node))
+                    except StopIteration:
+                        break
+                out.append(ep)
+            return out
+        finally:
+            torch.randint, torch.multinomial = real["randint"], real["multinomial"]
+    alone = run_x(None)
+    fails = []
+    for at in range(c["at"], c["at"] + 3):
+        mixed = run_x(at)
+        if mixed != alone:
+            fails.append(f"sampler {c['x']} yields {mixed} when another sampler {c['y']} is reset and drawn from inside its random-number call #{at}, and {alone} on its own")
+            break
+    return dict(oracle="; ".join(fails[:1]) or None, nontrivial=True, key=["iso", c["x"], c["y"], c["at"], c["epochs"]])
+
+
 def run_impl(c):
     import torch
     from torchdata.nodes import IterableWrapper, MultiNodeWeightedSampler
+    if c.get("kind") == "iso":
+        return run_iso(c)
     names = [f"d{i}" for i in range(len(c["lens"]))]
 
     def mk():
@@ -242,4 +313,6 @@ def known_match(f, case, detail):
 
 
 def widen(c, rng):
+    if c.get("kind") == "iso":
+        return [dict(c, at=a) for a in range(0, 8)]
     return [dict(c, seed=c["seed"] + i) for i in range(1, 30)]
